@@ -187,32 +187,54 @@ def compare_styles(ck, pool, progs, label):
 
 
 def tie_both_styles(ck, pool, cases):
-    """(b): both styles of grass == both styles of the model; the model's two texts read back equal."""
+    """(b): both styles of grass == both styles of the model; and the Lean reader `readTree`
+    (C05_read_roundtrip / C06_style_equiv_model), run on GRASS's own text, returns the canonical tree
+    the theorems predict: `canonTop st t` whenever the guard `treeReadable st t` holds, and the SAME
+    tree for both styles whenever the style-free guard `treeG t` holds."""
     jobs, reqs = [], []
     for c in cases:
         for st in c05.STYLES:
             jobs.append(compile_job(c["src"], style=st, syntax="scss", charset=True))
             reqs.append(cc.print_request(st, True, c["tree"]))
+            reqs.append(" ".join(["ser", "canon", "c" if st == "compressed" else "e"] + cc.enc_body(c["tree"])))
     ans = cc.run_jobs(pool, jobs)
+    reqs += ["ser readtree " + hexs(a.get("css") or "") for a in ans]
     outs = driver(reqs)
+    nj = len(jobs)
     for i, c in enumerate(cases):
-        models = []
+        models, read = [], []
         feats = cc.tree_features(c["tree"])
         nontrivial = len(feats - {"top:rule", "in:decl", "non-ascii"}) > 0
+        gflag = None
         for j, st in enumerate(c05.STYLES):
-            a, o = ans[2 * i + j], outs[2 * i + j]
+            k = 2 * i + j
+            a, o, canon, rd = ans[k], outs[2 * k], outs[2 * k + 1], outs[2 * nj + k]
             if not o.startswith("ok "):
                 ck.cov["unsupported_dropped"] += 1
                 continue
-            model = unhex(o.split(" ")[1])
+            parts = o.split(" ")
+            model = unhex(parts[1])
             models.append(model)
             ck.count(("tie", hexs(json.dumps(c["tree"], ensure_ascii=False)), st), nontrivial)
             impl = a.get("css") if a.get("status") == "ok" else None
+            bad = None
             if impl != model:
+                bad = {"model_text": model, "impl_text": impl}
+            readable, gflag, has_header = parts[6] == "1", parts[7] == "1", parts[8] == "1"
+            ck.hist(f"tie:treeReadable={parts[6]} treeG={parts[7]}")
+            if readable and not has_header and impl is not None:
+                ck.count(("readtree", hexs(json.dumps(c["tree"], ensure_ascii=False)), st), nontrivial)
+                if rd != canon:
+                    bad = {"reader_on_grass_text": rd[:600], "canonTop": canon[:600], "impl_text": impl}
+                read.append(rd)
+            if bad:
                 ck.cov["model_disagreements"] += 1
                 if len(ck.disagreements) < 3:
-                    ck.disagreements.append({"source": c["src"], "style": st or "expanded", "model_text": model,
-                                             "impl_status": a.get("status"), "impl_text": impl})
+                    bad.update({"source": c["src"], "style": st or "expanded", "impl_status": a.get("status")})
+                    ck.disagreements.append(bad)
+        if gflag and len(read) == 2 and read[0] != read[1]:
+            ck.cov["model_disagreements"] += 1
+            ck.notes.append({"readTree_differs_between_styles_although_treeG": c["src"]})
         if len(models) == 2 and c.get("clean"):
             try:
                 if cc.canon_css(models[0], True) != cc.canon_css(models[1], True):
